@@ -12,10 +12,17 @@ package main
 //	    => L=<digest|clear|empty|other>:<tokInFrame>;P=…;W=…
 //	raw force=<0|1> b=<n>                    raw TCP peer against a real frps (tcpMux off): byte b + rest of a Login frame
 //	    => resp=<type byte|none|timeout>
-//	cert force=<0|1> sca=<0|1> scert=<0|1> tls=<0|1> custom=<0|1> cca=<0|1|2> sn=<0|1|2> ccert=<0|1|2> [proto=<tcp|kcp|ws|wss|quic>] [tok=<0|1>]
+//	cert force=<0|1> sca=<0|1> scert=<0|1> tls=<0|1> custom=<0|1> cca=<0|1|2> sn=<0..4> ccert=<0|1|2> [proto=<tcp|kcp|ws|wss|quic>] [tok=<0|1>] [san=<d><i>] [addr=<0|1>]
+//	    sn: 0 none (defaults to serverAddr) 1 frps.test 2 other.test 3 127.0.0.1 4 127.0.0.9;  san (SANs of the server's
+//	    certificate, default 11): d = 0 no DNS name 1 frps.test 2 other.test 3 localhost, i = 0 no IP 1 127.0.0.1 2 127.0.0.9;
+//	    addr: serverAddr 0 "127.0.0.1" 1 "localhost"
 //	    real client.NewConnector over that control transport + Login (tok=0: with a wrong key) against a real frps
 //	    that listens on tcp (muxed: plain / tls / websocket), kcp and quic
 //	    => up=1 | up=0 (no frame came back) | up=0:loginerr (frps read the Login and answered with an error)
+//	ident ca=<0|1|2> cert=<0|1> sn=<hex> peer=<ca><d><i>   real NewClientTLSConfig, then a handshake of that config over loopback TCP
+//	    with a TLS server presenting the certificate <ca: issuer 1|2><d><i: SAN kinds as above>
+//	    => acc=<0|1>
+//	rstart / rload / rconn: reload histories of a real frpc through the recording relay, see eng_wire_reload.go
 //	wire tls=<0|1> custom=<0|1> enc=<0|1> venc=<0|1> mux=<0|1> ws=<0|1> tok=<0|1> [q=<0|1>]
 //	    real frps + real frpc (tcp, stcp+visitor, http proxies) through a RECORDING RELAY (q=1: protocol quic through
 //	    a recording UDP relay in front of the quic port; fb=192 stands for "QUIC long-header Initial packet")
@@ -78,16 +85,24 @@ func wireGen(rng *rand.Rand, n int, emit func(string)) {
 	}
 	tri := []string{"0", "1", "d"}
 	for i := 0; i < n/8; i++ {
-		sn := ""
-		switch rng.Intn(4) {
-		case 0:
-		case 1:
-			sn = "frps.test"
-		default:
-			sn = wireRandStr(rng, 1+rng.Intn(12), "abcdefghijklmnopqrstuvwxyz0123456789.-")
-		}
-		emit(fmt.Sprintf("clicfg en=%s dis=%s ca=%d cert=%d sn=%s", pick(rng, tri), pick(rng, tri), rng.Intn(2), rng.Intn(2), hx(sn)))
+		emit(fmt.Sprintf("clicfg en=%s dis=%s ca=%d cert=%d sn=%s", pick(rng, tri), pick(rng, tri), rng.Intn(2), rng.Intn(2), hx(wireGenName(rng))))
 	}
+	// the tls.Config of NewClientTLSConfig in a handshake with every kind of peer certificate: server names of every
+	// kind (none, host names, IPv4 literals, near misses of literals) x issuer x DNS SAN kind x IP SAN kind
+	for i := 0; i < n/6; i++ {
+		ca := rng.Intn(3)
+		if rng.Intn(3) != 0 {
+			ca = 1 + rng.Intn(2)
+		}
+		emit(fmt.Sprintf("ident ca=%d cert=%d sn=%s pca=%d pd=%d pi=%d", ca, rng.Intn(2), hx(wireGenName(rng)),
+			1+rng.Intn(2), rng.Intn(len(wireSanDNS)), rng.Intn(len(wireSanIP))))
+	}
+	// reload histories of one frpc (early in the sequence: a failing history is then shrunk from a short prefix)
+	h := n / 200
+	if h < 5 {
+		h = 5
+	}
+	wireGenReloads(rng, h, emit)
 	// token setters
 	for i := 0; i < n; i++ {
 		tok := ""
@@ -123,6 +138,32 @@ func wireGen(rng *rand.Rand, n int, emit func(string)) {
 			}
 		}
 	}
+	// identity sub-lattice: a verifying client (TLS on, CA1 trusted) with every kind of server name — none (defaulted
+	// from serverAddr, an IP literal or a host name), host names, IP literals — against a server whose CA1 certificate
+	// has every combination of DNS SAN kind x IP SAN kind, over tcp, websocket and quic, with and without a server CA;
+	// plus generated samples of the same lattice for clients that do not verify (no CA / another CA / TLS off)
+	snAddr := [][2]int{{0, 0}, {0, 1}, {1, 0}, {2, 0}, {3, 0}, {4, 0}}
+	for _, proto := range []string{"tcp", "ws", "quic"} {
+		for d := range wireSanDNS {
+			for ip := range wireSanIP {
+				for _, sa := range snAddr {
+					sca := rng.Intn(2)
+					ccert := rng.Intn(3)
+					if sca == 1 && rng.Intn(4) != 0 {
+						ccert = 1
+					}
+					emit(fmt.Sprintf("cert force=%d sca=%d scert=1 tls=1 custom=%d cca=1 sn=%d ccert=%d proto=%s tok=%d san=%d%d addr=%d",
+						rng.Intn(2), sca, rng.Intn(2), sa[0], ccert, proto, wireBit(rng.Intn(8) != 0), d, ip, sa[1]))
+				}
+			}
+		}
+	}
+	for i := 0; i < 90; i++ {
+		sa := snAddr[rng.Intn(len(snAddr))]
+		emit(fmt.Sprintf("cert force=0 sca=0 scert=1 tls=%d custom=%d cca=%d sn=%d ccert=%d proto=%s tok=1 san=%d%d addr=%d",
+			wireBit(rng.Intn(4) != 0), rng.Intn(2), rng.Intn(3), sa[0], rng.Intn(3), pick(rng, []string{"tcp", "ws", "quic"}),
+			rng.Intn(len(wireSanDNS)), rng.Intn(len(wireSanIP)), sa[1]))
+	}
 	// wss (frps does not terminate it: never a session) and kcp (no close signalling: a refusal is a
 	// time-out of the peer, so only a few cases, mostly TLS ones) — generated samples of the same lattice
 	for i := 0; i < 48; i++ {
@@ -157,6 +198,27 @@ func wireGen(rng *rand.Rand, n int, emit func(string)) {
 	emit("wire tls=0 custom=0 enc=1 venc=0 mux=0 ws=0 tok=0 q=1")
 }
 
+// server names as a class: none, the names the certificates carry, IPv4 literals (the ones the certificates
+// carry and others), near misses of literals (leading zero, field > 255, three / five fields), random host names
+func wireGenName(rng *rand.Rand) string {
+	switch rng.Intn(12) {
+	case 0:
+		return ""
+	case 1, 2:
+		return pick(rng, wireSanDNS[1:])
+	case 3, 4, 5:
+		return pick(rng, []string{"127.0.0.1", "127.0.0.9"})
+	case 6:
+		return fmt.Sprintf("%d.%d.%d.%d", rng.Intn(256), rng.Intn(256), rng.Intn(256), rng.Intn(256))
+	case 7:
+		return pick(rng, []string{"127.0.0.01", "127.0.0.256", "127.0.1", "127.0.0.1.1", "127.0.0.", "127..0.1", "0127.0.0.1", "127.0.0.1a"})
+	case 8:
+		return pick(rng, []string{"::1", "[127.0.0.1]", "FRPS.test", "frps.test."}) // outside the model's name domain: skipped by the driver
+	default:
+		return wireRandStr(rng, 1+rng.Intn(12), "abcdefghijklmnopqrstuvwxyz0123456789.-")
+	}
+}
+
 func wireRandStr(rng *rand.Rand, n int, alpha string) string {
 	b := make([]byte, n)
 	for i := range b {
@@ -174,7 +236,16 @@ type wirePKI struct {
 	cli1Cert, cli1Key string // client cert signed by CA1
 	cli2Cert, cli2Key string // client cert signed by CA2
 	sniffCfg          *tls.Config
+	// server certificates signed by CA1 for every SAN kind "<d><i>" (files: cert, key), and the same kinds from
+	// both CAs loaded for in-memory handshakes, keyed "<ca><d><i>"
+	srvSan map[string][2]string
+	peers  map[string]tls.Certificate
 }
+
+var (
+	wireSanDNS = []string{"", "frps.test", "other.test", "localhost"}
+	wireSanIP  = []net.IP{nil, net.IPv4(127, 0, 0, 1), net.IPv4(127, 0, 0, 9)}
+)
 
 var (
 	wirePKIOnce sync.Once
@@ -208,6 +279,15 @@ func wireMakeCA(dir, name string, serial int64) (*x509.Certificate, *ecdsa.Priva
 }
 
 func wireMakeLeaf(dir, name string, serial int64, ca *x509.Certificate, caKey *ecdsa.PrivateKey, server bool) (string, string) {
+	if server {
+		return wireMakeServerLeaf(dir, name, serial, ca, caKey, []string{"frps.test"}, []net.IP{net.IPv4(127, 0, 0, 1)})
+	}
+	return wireMakeServerLeaf(dir, name, serial, ca, caKey, nil, nil)
+}
+
+// dns == nil && ips == nil and name starting with "cli": a client certificate
+func wireMakeServerLeaf(dir, name string, serial int64, ca *x509.Certificate, caKey *ecdsa.PrivateKey, dns []string, ips []net.IP) (string, string) {
+	server := !strings.HasPrefix(name, "cli")
 	key, err := ecdsa.GenerateKey(elliptic.P256(), crand.Reader)
 	if err != nil {
 		panic(err)
@@ -219,8 +299,8 @@ func wireMakeLeaf(dir, name string, serial int64, ca *x509.Certificate, caKey *e
 	}
 	if server {
 		tpl.ExtKeyUsage = []x509.ExtKeyUsage{x509.ExtKeyUsageServerAuth}
-		tpl.DNSNames = []string{"frps.test"}
-		tpl.IPAddresses = []net.IP{net.IPv4(127, 0, 0, 1)}
+		tpl.DNSNames = dns
+		tpl.IPAddresses = ips
 	} else {
 		tpl.ExtKeyUsage = []x509.ExtKeyUsage{x509.ExtKeyUsageClientAuth}
 	}
@@ -251,6 +331,35 @@ func wireGetPKI() *wirePKI {
 		p.srvCert, p.srvKey = wireMakeLeaf(dir, "srv", 10, ca1, k1, true)
 		p.cli1Cert, p.cli1Key = wireMakeLeaf(dir, "cli1", 11, ca1, k1, false)
 		p.cli2Cert, p.cli2Key = wireMakeLeaf(dir, "cli2", 12, ca2, k2, false)
+		p.srvSan, p.peers = map[string][2]string{}, map[string]tls.Certificate{}
+		serial := int64(100)
+		for ci, ca := range []struct {
+			c *x509.Certificate
+			k *ecdsa.PrivateKey
+		}{{ca1, k1}, {ca2, k2}} {
+			for d := range wireSanDNS {
+				for i := range wireSanIP {
+					var dns []string
+					var ips []net.IP
+					if d > 0 {
+						dns = []string{wireSanDNS[d]}
+					}
+					if i > 0 {
+						ips = []net.IP{wireSanIP[i]}
+					}
+					serial++
+					cp, kp := wireMakeServerLeaf(dir, fmt.Sprintf("srv-%d-%d%d", ci+1, d, i), serial, ca.c, ca.k, dns, ips)
+					if ci == 0 {
+						p.srvSan[fmt.Sprintf("%d%d", d, i)] = [2]string{cp, kp}
+					}
+					pair, err := tls.LoadX509KeyPair(cp, kp)
+					if err != nil {
+						panic(err)
+					}
+					p.peers[fmt.Sprintf("%d%d%d", ci+1, d, i)] = pair
+				}
+			}
+		}
 		p.sniffCfg, err = transport.NewServerTLSConfig("", "", "")
 		if err != nil {
 			panic(err)
@@ -455,6 +564,15 @@ type wireSrv struct {
 var wireSrvs = map[string]*wireSrv{}
 
 func wireStartServer(force, ca, cert, mux bool, token string, vhostHTTP int, scopes ...v1.AuthScope) *wireSrv {
+	san := ""
+	if cert {
+		san = "11"
+	}
+	return wireStartServerSan(force, ca, san, mux, token, vhostHTTP, scopes...)
+}
+
+// san: "" = no certificate configured (frps makes a random one), else the SAN kind "<d><i>" of a CA1 certificate
+func wireStartServerSan(force, ca bool, san string, mux bool, token string, vhostHTTP int, scopes ...v1.AuthScope) *wireSrv {
 	pki := wireGetPKI()
 	var lastErr error
 	for try := 0; try < 5; try++ {
@@ -472,8 +590,12 @@ func wireStartServer(force, ca, cert, mux bool, token string, vhostHTTP int, sco
 		if ca {
 			scfg.Transport.TLS.TrustedCaFile = pki.ca1
 		}
-		if cert {
-			scfg.Transport.TLS.CertFile, scfg.Transport.TLS.KeyFile = pki.srvCert, pki.srvKey
+		if san != "" {
+			files, ok := pki.srvSan[san]
+			if !ok {
+				panic("unknown SAN kind " + san)
+			}
+			scfg.Transport.TLS.CertFile, scfg.Transport.TLS.KeyFile = files[0], files[1]
 		}
 		scfg.Complete()
 		svr, err := server.NewService(scfg)
@@ -489,11 +611,19 @@ func wireStartServer(force, ca, cert, mux bool, token string, vhostHTTP int, sco
 }
 
 func wireCachedServer(force, ca, cert, mux bool) *wireSrv {
-	key := fmt.Sprint(force, ca, cert, mux)
+	san := ""
+	if cert {
+		san = "11"
+	}
+	return wireCachedServerSan(force, ca, san, mux)
+}
+
+func wireCachedServerSan(force, ca bool, san string, mux bool) *wireSrv {
+	key := fmt.Sprint(force, ca, san, mux)
 	if s, ok := wireSrvs[key]; ok {
 		return s
 	}
-	s := wireStartServer(force, ca, cert, mux, wireCertToken, 0)
+	s := wireStartServerSan(force, ca, san, mux, wireCertToken, 0)
 	wireSrvs[key] = s
 	return s
 }
@@ -545,9 +675,22 @@ func wireRaw(kv map[string]string) string {
 
 func wireCert(kv map[string]string) string {
 	pki := wireGetPKI()
-	s := wireCachedServer(wireB(kv["force"]), wireB(kv["sca"]), wireB(kv["scert"]), true)
+	san := ""
+	if wireB(kv["scert"]) {
+		san = "11"
+		if v, ok := kv["san"]; ok {
+			san = v
+		}
+		if _, ok := pki.srvSan[san]; !ok {
+			return "badsan"
+		}
+	}
+	s := wireCachedServerSan(wireB(kv["force"]), wireB(kv["sca"]), san, true)
 	ccfg := &v1.ClientCommonConfig{}
 	ccfg.ServerAddr = "127.0.0.1"
+	if kv["addr"] == "1" {
+		ccfg.ServerAddr = "localhost"
+	}
 	ccfg.ServerPort = s.port
 	en, dis := wireB(kv["tls"]), !wireB(kv["custom"])
 	ccfg.Transport.TLS.Enable = &en
@@ -563,6 +706,10 @@ func wireCert(kv map[string]string) string {
 		ccfg.Transport.TLS.ServerName = "frps.test"
 	case "2":
 		ccfg.Transport.TLS.ServerName = "other.test"
+	case "3":
+		ccfg.Transport.TLS.ServerName = "127.0.0.1"
+	case "4":
+		ccfg.Transport.TLS.ServerName = "127.0.0.9"
 	}
 	switch kv["ccert"] {
 	case "1":
@@ -644,6 +791,32 @@ type wireRelay struct {
 	flows    map[string]*net.UDPConn
 	flowKeys []string
 	flowBase []int
+	// reload rig: connections accepted so far; while held, accepted connections wait before they are forwarded
+	nAccepted int
+	held      bool
+}
+
+func (r *wireRelay) accepted() int {
+	r.mu.Lock()
+	defer r.mu.Unlock()
+	return r.nAccepted
+}
+
+func (r *wireRelay) hold(h bool) {
+	r.mu.Lock()
+	r.held = h
+	r.mu.Unlock()
+}
+
+// close every relayed connection (both sides); the capture is kept
+func (r *wireRelay) cut() {
+	r.mu.Lock()
+	cs := r.conns
+	r.conns = nil
+	r.mu.Unlock()
+	for _, c := range cs {
+		c.Close()
+	}
 }
 
 // recording UDP relay: every datagram a client sends to the relay port goes to `target` from a socket
@@ -725,6 +898,15 @@ func wireNewRelay(target string) *wireRelay {
 			if err != nil {
 				return
 			}
+			for i := 0; i < 2000; i++ {
+				r.mu.Lock()
+				h := r.held
+				r.mu.Unlock()
+				if !h {
+					break
+				}
+				time.Sleep(5 * time.Millisecond)
+			}
 			u, err := net.Dial("tcp", target)
 			if err != nil {
 				c.Close()
@@ -732,6 +914,7 @@ func wireNewRelay(target string) *wireRelay {
 			}
 			st := &wireStream{}
 			r.mu.Lock()
+			r.nAccepted++
 			r.streams = append(r.streams, st)
 			r.conns = append(r.conns, c, u)
 			r.mu.Unlock()
@@ -1078,6 +1261,7 @@ wait:
 func wireExec(tok []string) string {
 	switch tok[0] {
 	case "reset":
+		wireRClose()
 		return "-"
 	case "sniff":
 		return wireSniff(atoi(tok[1]), tok[2] == "1")
@@ -1093,6 +1277,14 @@ func wireExec(tok []string) string {
 		return wireCert(wireKV(tok))
 	case "wire":
 		return wireWire(wireKV(tok))
+	case "ident":
+		return wireIdent(wireKV(tok))
+	case "rstart":
+		return wireRStart(wireKV(tok))
+	case "rload":
+		return wireRLoad(wireKV(tok))
+	case "rconn":
+		return wireRConn()
 	}
 	return "badop"
 }
